@@ -10,6 +10,7 @@ import os
 import time
 from concurrent.futures import ThreadPoolExecutor
 from .. import core
+from . import _c13_part
 
 OPS = ["sum", "prod", "max", "min"]
 TYS = ["u", "i", "d"]
@@ -466,6 +467,8 @@ def run(ctx):
         else:
             ctx.violation("broken", what, {"theorem_or_correspondence": ("impl != Util model on " + mism[0][0]) if mism else pr["file"],
                                            "first_mismatch": mism[0] if mism else None, "coq_log": pr["log"][-1500:]}, no_input=True)
+    # extension F: one partition pass under arbitrary interleavings of its threads (micro-step machine, Properties_C13_part.v)
+    _c13_part.run_part(ctx, quick)
 
 
 def replay(ctx, path):
